@@ -346,6 +346,36 @@ def run(ctx):
                "re-arming the flag (the failing-creator `?` exit): the next acquire_env serves the stale environment",
                where or acq.where(start))
 
+    # A8 (after seed C20-8): "alive" means the reloader still exists.  `Notifier::handle()` is the one place that decides
+    # it: every value it returns is `Some(..)` of the strong handle or the result of `Weak::upgrade()` unchanged - no
+    # other condition (a generation stamp, a flag) can make a notifier of a live reloader drop requests silently.
+    hf = ctx.prog.fns.get("minijinja_autoreload::Notifier::handle")
+    if hf is not None:
+        from .. import inline as _inl
+        hv = _inl.view(ctx.prog, hf, keep=("upgrade", "clone"))
+        rets = flow.origins(hv, 0)
+        bad8 = []
+        for r in rets:
+            if r.kind == "call" and r.call.name.endswith("Weak<T, A>::upgrade") or (r.kind == "call" and r.call.name.endswith("::upgrade")):
+                continue
+            if r.kind == "agg" and r.rv.get("variant") == "Some":
+                continue
+            if r.kind == "agg" and r.bb is not None:
+                # a `None` that no kind of handle can reach (`let Weak(w) = self.handle else { return None }` behind
+                # the test for the other variant): the dominating matches on the handle leave no variant over
+                HADT = "minijinja_autoreload::NotifierImplHandle"
+                if ctx.prog.adts.get(HADT):
+                    feas = set(ctx.prog.variants(HADT))
+                    for (sb, taken) in flow.guards(hv, r.bb):
+                        cd = flow.cond_of(hv, sb)
+                        if cd.kind == "discr" and cd.adt == HADT:
+                            feas &= set(flow.taken_variants(ctx.prog, hv, sb, taken, HADT) or feas)
+                    if not feas:
+                        continue
+            bad8.append(repr(r)[:120])
+        ctx.ob("C20.A8.notifier-is-dead-only-when-the-reloader-is-gone", hf.path, bool(rets) and not bad8,
+               "Notifier::handle() can answer None for another reason than a dropped reloader (%s): request_reload() through such "
+               "a notifier returns normally without setting the flag, the request is lost" % bad8, hf.loc)
     # A5: both request entry points set the flag whenever the notifier is alive
     req = prog.fn(REQ)
     req_sets = [bb for f, bb in sets if f.path == REQ]
